@@ -32,7 +32,7 @@ impl Writer {
 //@attr #[verifier::exec_allows_no_decreases_clause]
 //@hint after#1 <<<opt.cancelled()?;>>>
         let ghost m = reader.trees.snap();
-        let ghost u0 = reader.concurrent_node_ids.used0();
+        let ghost u0 = (tmp_nodes.taken())(self.index);
         let ghost t0 = tmp_nodes.tv();
         let ghost a0 = tmp_nodes.allocated();
         let ghost cap = cap_of(opt, self.dimensions);
@@ -54,15 +54,15 @@ let normal__brk: UVec;
 >>>
 //@loop 0
         invariant
-            tmp_nodes.tv() == t0, tmp_nodes.allocated() == a0, tmp_nodes.rm() == old(tmp_nodes).rm(),
+            tmp_nodes.tv() == t0, tmp_nodes.allocated() == a0, tmp_nodes.rm() == old(tmp_nodes).rm(), tmp_nodes.taken() == old(tmp_nodes).taken(),
             0 <= remaining_attempts <= 3,
             item_indices@ == items, items.subset_of(reader.leafs.ids()),
         ensures
             split_ok(children_left@, children_right@, items, normal__brk.vv(), reader.leafs),
-            tmp_nodes.tv() == t0, tmp_nodes.allocated() == a0, tmp_nodes.rm() == old(tmp_nodes).rm(),
+            tmp_nodes.tv() == t0, tmp_nodes.allocated() == a0, tmp_nodes.rm() == old(tmp_nodes).rm(), tmp_nodes.taken() == old(tmp_nodes).taken(),
 //@loop 1
         invariant
-            iter__0.seq@ == bm_seq(items), 0 <= iter__0.pos@ <= iter__0.seq@.len(), tmp_nodes.rm() == old(tmp_nodes).rm(),
+            iter__0.seq@ == bm_seq(items), 0 <= iter__0.pos@ <= iter__0.seq@.len(), tmp_nodes.rm() == old(tmp_nodes).rm(), tmp_nodes.taken() == old(tmp_nodes).taken(),
             items.subset_of(reader.leafs.ids()),
             part_ok(children_left@, children_right@, iter__0.seq@, iter__0.pos@, normal.vv(), reader.leafs),
         ensures
